@@ -122,7 +122,9 @@ def run_lib(case, arrays, rg=None, ts_override=None):
     if op == "batch_norm":
         # arrays: x, [gamma, beta] if affine, [rmean, rvar] if stats
         i = 1; gamma = beta = rm = rv = None
-        if A["affine"]: gamma, beta = ts[i], ts[i + 1]; i += 2
+        if A["affine"] is True: gamma, beta = ts[i], ts[i + 1]; i += 2
+        elif A["affine"] == "w": gamma = ts[i]; i += 1          # functional form only: scale without shift
+        elif A["affine"] == "b": beta = ts[i]; i += 1           # functional form only: shift without scale
         if A["stats"]: rm, rv = ts[i], ts[i + 1]; i += 2
         if form == "fn":
             out = F.batch_norm(ts[0], gamma, beta, rm, rv, training=A["training"], momentum=A.get("momentum", 0.1), eps=A["eps"])
@@ -131,7 +133,7 @@ def run_lib(case, arrays, rg=None, ts_override=None):
         C = np.shape(arrays[0])[1]
         L = cls(C, eps=A["eps"], momentum=A.get("momentum", 0.1), affine=A["affine"], track_running_stats=A["stats"], dtype=np.asarray(arrays[0]).dtype.type)
         j = 1
-        if A["affine"]:
+        if A["affine"] is True:
             L.weight = _param(sg, nn, arrays[1], rg[1]); L.bias = _param(sg, nn, arrays[2], rg[2]); ts[1], ts[2] = L.weight, L.bias; j = 3
         if A["stats"]:
             L.running_mean = ts[j]; L.running_var = ts[j + 1]
@@ -248,7 +250,9 @@ def run_ref(case, arrays):
         return TF.fold(x, _b2(_tup(A["output_size"])), k, dilation=d, padding=p, stride=s).numpy()
     if op == "batch_norm":
         i = 1; gamma = beta = rm = rv = None
-        if A["affine"]: gamma, beta = tt[i], tt[i + 1]; i += 2
+        if A["affine"] is True: gamma, beta = tt[i], tt[i + 1]; i += 2
+        elif A["affine"] == "w": gamma = tt[i]; i += 1
+        elif A["affine"] == "b": beta = tt[i]; i += 1
         if A["stats"]: rm, rv = tt[i].clone(), tt[i + 1].clone(); i += 2
         training = A["training"] or not A["stats"]      # without running statistics batch statistics are always used
         out = TF.batch_norm(x, rm, rv, gamma, beta, training=training, momentum=A.get("momentum", 0.1), eps=A["eps"])
@@ -451,6 +455,10 @@ def cases(tier, what="forward"):
                     add("batch_norm", shp, A, pats=pats)
                     lf = "layer2d" if len(s) == 4 else "layer1d"
                     add("batch_norm", shp, A, pats=pats, form=lf)
+                    if affine and mom == 0.1:    # functional form with only one of weight / bias
+                        for one in ("w", "b"):
+                            A1 = dict(A, affine=one)
+                            add("batch_norm", [s, (C,)] + ([(C,), (C,)] if stats else []), A1, pats=["generic", "generic"] + (["generic", "var"] if stats else []))
                     if fw and mom == 0.1:        # data with a large mean and unit spread
                         add("batch_norm", shp, A, pats=["offset"] + pats[1:]); add("batch_norm", shp, A, pats=["offset"] + pats[1:], form=lf)
     # --- dropout (controlled source: every keep/drop pattern on 3 elements, boundary excluded)
@@ -479,5 +487,6 @@ def diff_idx(case, arrays):
     op = case["op"]
     if op in DIFF: return DIFF[op]
     if op == "batch_norm":
-        return [0] + ([1, 2] if case["args"]["affine"] else [])
+        a = case["args"]["affine"]
+        return [0] + ([1, 2] if a is True else [1] if a else [])
     return [i for i, a in enumerate(arrays) if np.asarray(a).dtype.kind == "f"]
